@@ -1,7 +1,50 @@
 # Single source of truth for MANIFEST.json (see tools/mkmanifest.py).
 HOOK_COMMITS = ["2f4866a", "ffed481"]
-ENGINES = []
-NOTES = "Runtime monitoring and sanitizers only; see DESIGN.md. Work in progress: checks are registered as they are built."
-CHECKS = []
-_ALL = [f"C{i:02d}" for i in range(1, 21)]
-NOT_APPLICABLE = [{"property_id": p, "reason": "check not built yet (planned, see DESIGN.md section 5); not claimed until its monitor exists"} for p in _ALL if p not in {c["id"] for c in CHECKS}]
+
+ENGINES = [
+    {"name": "model", "path": "harness/src/engines/model.rs", "serves_properties": ["C01", "C02", "C03", "C04", "C07", "C08", "C09", "C11", "C13", "C14", "C15", "C17", "C18", "C19", "C20"],
+     "kind_free_text": "seeded histories executed against real trees; reference MVCC model (harness/src/model.rs) compared after every op through the read battery (harness/src/inst.rs); structural auditors on every installed version via the version_installed hook (harness/src/audit.rs); directory audit; lock-step twins / tuning groups / shared-cache groups / FIFO mode"},
+    {"name": "table", "path": "harness/src/engines/table.rs", "serves_properties": ["C12"],
+     "kind_free_text": "item streams written through table::Writer and read back through every read path; native + Miri (Stacked Borrows)"},
+]
+
+NOTES = ("Runtime monitoring and sanitizers only (DESIGN.md). Every check command rebuilds the harness, and with it lsm-tree "
+         "from /repo's working tree with cargo feature `verif`. Exit codes: 0 held on everything explored (KNOWN-FINDING lines for listed "
+         "defects), 1 violation (VIOLATION property=<id> replay=<path>), 2 inconclusive (build failure, watchdog, too few non-trivial cases). "
+         "Genuine defects found and repaired: see known_findings.json (status fixed) and DESIGN.md section 8.")
+
+_T = "reference-model oracle + structural auditors over seeded histories (runtime monitoring)"
+
+def _c(pid, engine, text, note, technique, ref, level="exploration"):
+    return {"id": pid, "engine": engine, "level": level, "text": text, "note": note, "technique": technique, "design_ref": ref}
+
+_NOTE = ("Trusted: the reference model (harness/src/model.rs, ~300 lines) and the usage protocol of DESIGN.md 4.3; histories, configurations "
+         "and watermarks are sampled (seeded), universes are small (<= 64 keys); held on the K distinct non-trivial cases reported in the evidence, not more.")
+
+CHECKS = [
+    _c("C01", "model", "Point reads (get/contains_key/size_of/get_internal_entry) at the newest snapshot are compared with the model after every op of thousands of seeded histories mixing writes with rotate/flush/leveled/major/move-down/pull-down/reopen over random physical configurations; a resurrected delete or resurfaced overwrite is identified by the unique value it carries.", _NOTE, _T, "5/C01"),
+    _c("C02", "model", "Up to 6 snapshots are held across later writes, flushes, compactions with legal watermarks (incl. the tightest), filters, ingestion, drop_range and clear; the full battery runs for every held snapshot after every structural op against the model world of that snapshot, plus the mechanism invariant that a held snapshot keeps resolving to the version it was opened on.", _NOTE, _T, "5/C02"),
+    _c("C03", "model", "Forward, reverse and seeded next/next_back interleavings of full, ranged (bounds from keys, table/block boundaries, 0xFF.., inverted/empty) and prefix scans, with and without an overlay memtable, plus len/is_empty/first/last, compared with the model's range query on layouts with memtables, several L0 runs, multi-table runs and multi-block tables.", _NOTE, _T, "5/C03"),
+    _c("C04", "model", "Reopen at arbitrary positions (unflushed / sealed memtables, overlapping L0 runs, after moves, clear, drop_range, ingest, abandoned ingest); after each reopen the full dump (value + seqno) must equal the model's persisted state, id counters must be above everything present, the directory must be exact, and the history continues writing/flushing/compacting.", _NOTE, _T, "5/C04"),
+    _c("C07", "model", "Every version installed (observed at the version_installed hook) is audited: runs ascending and disjoint, read-order seqno invariant across runs/levels, each table's stored key range / seqno range / counts vs. a full scan (and scan vs. index iterator both directions), files exist, and the v<N> file decodes (own decoder) to the same structure.", _NOTE, "invariant auditor at the version_installed hook over seeded histories (runtime monitoring)", "5/C07"),
+    _c("C08", "model", "Lock-step twins: one standard tree and 1-3 KV-separated trees (different thresholds / file sizes / staleness / compression) execute the same history; logical dumps at the newest and at every held snapshot are compared pairwise and each tree with the model; panics such as an unresolvable pointer are violations; dangling pointers are also caught by the version auditor.", _NOTE, "lock-step differential oracle (standard vs KV-separated) + reference model (runtime monitoring)", "5/C08"),
+    _c("C09", "model", "At every installed version the garbage map is recounted from first principles (pointers decoded from every table vs. frames parsed from every blob file), stale_blob_bytes() is compared with the recount, dangling references / statistics for unlisted files / unreferenced files that outlive two merge-or-drop version changes are reported, and statistics must survive reopen.", _NOTE, "invariant auditor (recount) at the version_installed hook (runtime monitoring)", "5/C09"),
+    _c("C11", "model", "Groups of 3-5 trees with different physical configurations run one history in lock-step and must agree with each other and the model; additionally 2-3 trees with different histories share one Cache and one tiny DescriptorTable (table ids coincide, tree ids differ) and are each compared with their own model.", _NOTE, "lock-step differential oracle across configurations + shared-cache groups (runtime monitoring)", "5/C11"),
+    _c("C12", "table", "Sorted multi-version streams (values, tombstones, weak tombstones, pointers; long shared prefixes, prefix-of-each-other keys, 2 KiB keys, entries larger than a block, version slabs spanning blocks) are written with random writer settings and read back through scan, iter, reverse, ranged ping-pong scans and point lookups at (key, s-1/s/s+1/0/MAX); stored metadata must equal the stream's. A share runs under Miri with Stacked Borrows.", "Trusted: the generated stream as oracle; stream size <= 400 entries; Miri covers only the small cases.", "stream-as-oracle differential testing + Miri (runtime monitoring / UB interpreter)", "5/C12"),
+    _c("C13", "model", "Keys under the single-delete discipline (enforced by executor guards) go through insert/remove_weak generations with flush/rotate/compaction placed everywhere and watermarks from 0 to the tightest legal one; reads at all snapshots must equal the model in which a weak delete is a delete.", _NOTE, _T, "5/C13"),
+    _c("C14", "model", "Bulk ingestions of sorted batches (values + tombstones) interleaved with writes, snapshots, flushes, compactions, reopen and abandoned ingestions; all entries must carry the installing version's seqno, be visible to later and invisible to earlier snapshots, override older and be overridden by newer writes, and survive reopen.", _NOTE, _T, "5/C14"),
+    _c("C15", "model", "drop_range with bounds taken from the actual tables' min/max keys +-1 byte in all Included/Excluded/Unbounded combinations (plus empty and inverted ranges, which must change nothing) and clear(), with snapshots before/after: keys outside the range and every earlier snapshot are exact, keys inside are unconstrained (tainted), a cleared tree is empty for later snapshots.", _NOTE, _T, "5/C15"),
+    _c("C17", "model", "A logging compaction filter with a seeded verdict function (Keep / Remove / ReplaceValue small+large / RemoveWeak+Destroy on write-once keys) is installed; after each compaction the model world is transformed by exactly the logged events and all reads at new and old snapshots are compared; a tombstone handed to the filter trips the crate's unreachable!().", _NOTE, "filter event log + reference model (runtime monitoring)", "5/C17"),
+    _c("C18", "model", "After every op get_highest_persisted_seqno is compared with the maximum seqno found by scanning the tables of the current version, get_highest_memtable_seqno with the model's unflushed entries, get_highest_seqno with their maximum, and the persisted mark before/after reopen.", _NOTE, "invariant monitor over table scans (runtime monitoring)", "5/C18"),
+    _c("C19", "model", "Append-only monotonic histories with a virtual clock; for each FIFO compaction the removed/retained tables are compared by creation time, size limit and TTL (no removed table newer than a retained one unless expired, nothing removed within limit and TTL) and every key of a retained table must stay readable, also after reopen.", _NOTE, "before/after table-set oracle with virtual clock (runtime monitoring)", "5/C19"),
+    _c("C20", "model", "At every quiescent point the directory listing is compared with the ids named by the retained version history (premature deletes, leaks), and with exactly the current version after every reopen; snapshots are held across compactions and released, watermark schedules range from never-GC to tight.", _NOTE, "directory audit against the retained version history (runtime monitoring)", "5/C20"),
+]
+
+_PENDING = {
+    "C05": "crash engine (strace log -> persistence model -> crash images) not built yet; planned, DESIGN.md 5/C05",
+    "C06": "concurrency engine (sched-hook delay injection, TSan) not built yet; planned, DESIGN.md 5/C06",
+    "C10": "corruption engine (byte mutations of every persisted file) not built yet; planned, DESIGN.md 5/C10",
+    "C16": "fault engine (strace syscall fault injection) not built yet; planned, DESIGN.md 5/C16",
+}
+_claimed = {c["id"] for c in CHECKS}
+NOT_APPLICABLE = [{"property_id": p, "reason": r} for p, r in sorted(_PENDING.items()) if p not in _claimed]
